@@ -440,6 +440,7 @@ def expand(path, env=None, cap=1500, keep=()):
     env = dict(env or {})
     res = Expanded()
     decided = {}
+    named = {}
     keep = set(keep) | mutated_names(path.stmts)
     for item in path.items:
         if item[0] == 'cond':
@@ -450,6 +451,11 @@ def expand(path, env=None, cap=1500, keep=()):
             parts = alts[0] if len(alts) == 1 else [(x, pol)]
             if not alts:
                 res.feasible = False
+            if isinstance(e, ast.Name):
+                # the truth value of a local cannot change between two decisions unless it is rebound (whatever defined it)
+                if e.id in named and named[e.id] != pol:
+                    res.feasible = False
+                named[e.id] = pol
             for x2, p2 in parts:
                 res.conds.append((e, x2, p2))
                 tv = _const_truth(x2)
@@ -473,6 +479,7 @@ def expand(path, env=None, cap=1500, keep=()):
                 new = _Sub(inner_env).visit(clone(st)) if inner_env else st
             for k in killed:
                 env.pop(k, None)
+                named.pop(k, None)
             res.ncond_at.append(len(res.conds))
             res.stmts.append((st, new))
             decided = {}
@@ -480,6 +487,8 @@ def expand(path, env=None, cap=1500, keep=()):
         new = _Sub(env).visit(clone(st)) if env else clone(st)
         res.ncond_at.append(len(res.conds))
         res.stmts.append((st, new))
+        for k in _stored_names(st):
+            named.pop(k, None)
         if not _pure(st):
             decided = {}          # a call may change what an earlier decision looked at
         if isinstance(st, ast.Assign):
